@@ -126,10 +126,11 @@ def support_lines(lines, rng, pars_fixed=None, omit=()):
         n = rng.randint(2, 5)
         out += [f"{name}::Spline::Min 0.18412", f"{name}::Spline::Max 1.9", f"{name}::Spline::N {n}"]
         for i in range(n):
-            out.append(f"{name}::Spline::Gamma::{i}   {rng.choice([0, 2])}   {0.001 * (i + 1):.6f}   {0.0001 if i % 2 else 0}")
+            out.append(f"{name}::Spline::Gamma::{i}   {rng.choice([0, 2])}   {0.001 * (i + 1) + rng.random() * 1e-6:.10f}   "
+                       f"{0.000100001234 if i % 2 else 0}")
     if "kMatrix" in kinds:
         for i in range(5):
-            out.append(f"f_scatt{i}   {rng.choice([0, 2])}   {0.1 * (i + 1):.3f}   0.01")
+            out.append(f"f_scatt{i}   {rng.choice([0, 2])}   {0.1 * (i + 1) + rng.random() * 1e-7:.9f}   0.0100000123")
         for p in range(5):
             for nm in ("pipi", "KK", "4pi", "EtaEta", "EtapEta", "mass"):
                 out.append(f"IS_p{p + 1}_{nm}   2   {0.1 * p + 0.01 * len(nm):.4f}   0")
